@@ -762,6 +762,11 @@ impl<'b, 'a: 'b> FmtVisitor<'a> {
         // or it can be on the same line as the last attribute.
         // So here we need to take a minimum between the two.
         let lo = std::cmp::min(attrs_end + 1, first_line);
+        // The skipped range is matched against the lines of the emitted text, so
+        // translate `lo` from a line of the source into a line of the output:
+        // the item is copied verbatim and starts on the current output line.
+        let item_first_line = self.psess.line_of_byte_pos(source!(self, item_span).lo());
+        let lo = self.line_number + 1 + lo.saturating_sub(item_first_line);
         self.push_rewrite_inner(item_span, None);
         let hi = self.line_number + 1;
         self.skipped_range.borrow_mut().push((lo, hi));
